@@ -245,7 +245,15 @@ class FromDAOState:
         if value is None:
             return None, False
         parsed = value.from_dao(state=self)
-        return parsed, parsed is self.memo.get(id(value))
+        return parsed, self.is_still_in_progress(value)
+
+    def is_still_in_progress(self, dao_obj: Any) -> bool:
+        """
+        :param dao_obj: A DAO whose conversion was just requested.
+        :return: True if the DAO is part of a reference cycle that is being converted right now, so what was returned
+         for it is not the finished object and has to be revisited.
+        """
+        return id(dao_obj) in self.in_progress
 
     def parse_collection(self, value: Any) -> tuple[Any, List[Any]]:
         """
@@ -269,10 +277,11 @@ class FromDAOState:
         circular_values: List[Any] = []
         for v in value or []:
             instance = v.from_dao(state=self)
-            if instance is self.memo.get(id(v)):
+            if self.is_still_in_progress(v):
                 circular_values.append(v)
             instances.append(instance)
-        return instances, circular_values
+        # revisited as a whole: the fix replaces the collection
+        return instances, (list(value) if circular_values else [])
 
     def apply_circular_fixes(self, result: Any, circular_refs: Dict[str, Any]) -> None:
         """
